@@ -33,6 +33,8 @@ pub mod c15;
 #[cfg(feature = "full")]
 pub mod c16;
 #[cfg(feature = "full")]
+pub mod c17;
+#[cfg(feature = "full")]
 pub mod c18;
 #[cfg(feature = "full")]
 pub mod c19;
@@ -107,6 +109,7 @@ pub fn all() -> Vec<Property> {
         v.push(Property { id: "C14", level: "exploration", build: c14::build });
         v.push(Property { id: "C15", level: "exploration", build: c15::build });
         v.push(Property { id: "C16", level: "exploration", build: c16::build });
+        v.push(Property { id: "C17", level: "exploration", build: c17::build });
         v.push(Property { id: "C18", level: "exploration", build: c18::build });
         v.push(Property { id: "C19", level: "exploration", build: c19::build });
         v.push(Property { id: "C20", level: "fault_enumeration", build: c20::build });
